@@ -21,9 +21,11 @@ ulist (`_ulist.py`)      __add__, __or__ (checked to be the same function object
                          every call site that uses it (copy, `&` with one element, dictattr.keys).
 dictattr (`_dictattr.py`) __sub__ (single key, list of keys: the `for` loop with a pointwise invariant, the recursive call with
                          copy = False inlined), __delitem__ (through `del res[key]`), __and__ (with the real as_list / keys),
-                         __add__, __getitem__ (key, tuple of keys, list of keys), __getattr__, keys, copy, relabel (method body; the
-                         module-level helper relabel() that builds the renaming dict is taken as an arbitrary mapping M - its string
-                         building stays bounded).  Frame: every mutation site executed (del, update, store) produces an obligation
+                         __add__, __getitem__ (key, tuple of keys, list of keys), __getattr__, __setattr__, __delattr__ (the two in-place
+                         operations, run on an owned copy), keys, copy, relabel (method body; the module-level helper relabel() that builds
+                         the renaming dict is taken as an arbitrary mapping M - its string building stays bounded).
+                         The law (d - k).keys() == d.keys() - k is checked with both sides executed: the real dictattr.keys on the
+                         result and on the receiver and the real ulist.__sub__ on the latter (same members, same relative order).  Frame: every mutation site executed (del, update, store) produces an obligation
                          "the target was created in this activation (copy / constructor)" - the ownership flag travels with the
                          symbolic object through the inlined calls.
                          Excluded by path precondition: tuple paths (`d - ('a','b')`, known to delete inside a shared child - noted
@@ -65,8 +67,16 @@ def machinery(ctx):
     return dict(mu=mu, mt=mt, ml=ml, md=md, mD=mD, classes=classes, inline=inline)
 
 
+def record_inlined(ctx, ex):
+    """every repo function whose statements were executed (directly or inlined at a call site) is listed in the evidence"""
+    for key, (mod, fdef) in ex.inline.items():
+        if any(isinstance(n, ast.stmt) and id(n) in ex.stmts_executed for n in ast.walk(fdef) if n is not fdef):
+            ctx.record_function(mod, key, fdef, ex.stmts_executed)
+
+
 def finish(ctx, ex, th, E, J=()):
     """obligations raised inside the executor (call-site preconditions, frame, safety) get the axiom instances too"""
+    record_inlined(ctx, ex)
     inst = th.inst(E, J)
     for ob in ex.obligations:
         ob.hyps = list(ob.hyps) + inst
